@@ -32,6 +32,7 @@ TESTS = {
     "standin_ps_signature_verify": ("zkchannels-crypto", ["C07", "C08", "C03", "C18"], ["ps.Signature::verify", "ps.Signature::new"]),
     "standin_key_decode_validation": ("zkchannels-crypto", ["C15", "C07", "C08"], ["ps.PublicKey::try_from", "ps.SecretKey::try_from"]),
     "standin_range_params_generation": ("zkchannels-crypto", ["C19", "C13"], ["range.RangeConstraintParameters::new", "ps.Signature::new"]),
+    "standin_public_key_bytes": ("zkchannels-crypto", ["C18"], ["ps.PublicKey::to_bytes"]),
     "standin_keygen": ("zkchannels-crypto", ["C19", "C07", "C08", "C01"], ["ps.KeyPair::new", "ps.SecretKey::new", "ps.PublicKey::from_secret_key"]),
     "standin_ps_publickey_consume": ("zkchannels-crypto", ["C12", "C01", "C02", "C06"], ["ps.PublicKey::consume"]),
     "standin_pedersen_commitment": ("zkchannels-crypto", ["C09", "C10", "C11", "C05"], ["pedersen.Commitment::new", "pedersen.Commitment::verify_opening"]),
